@@ -229,6 +229,23 @@ def c13_place_at(vi: int, k: int, off: int) -> bool:
     return b.current_beat == cb and len(b) == 4
 
 
+def c13_set_meter_seq(c1: int, u1: int, c2: int, u2: int) -> bool:
+    """set_meter on a bar that already has a meter (every ordered pair of small meters, incl. equal lengths
+    such as 4/4 -> 2/2), followed by '+': meter, length and the value '+' places follow the meter set last"""
+    US = [1, 2, 4, 8, 16]
+    a = (enum(c1, 1, 13), pick(US, u1))
+    bb = (enum(c2, 1, 13), pick(US, u2))
+    bar = Bar("C", a)
+    if bar.meter != a or bar.length != a[0] * (1.0 / a[1]):
+        return False
+    bar.set_meter(bb)
+    if bar.meter != bb or bar.length != bb[0] * (1.0 / bb[1]):
+        return False
+    if not (bar + NoteContainer("C")):
+        return False
+    return bar.bar[0][1] == bb[1] and bar.bar[0][0] == 0.0 and bar.current_beat == 1.0 / bb[1]
+
+
 def c13_set_meter(c: int, ui: int) -> bool:
     u = pick([1, 2, 4, 8, 16, 32, 64, 128, 256, 0, 3, 5, 6, 12, 24, -4, 100], ui)
     b = Bar()
@@ -348,6 +365,8 @@ def claims(tier):
     cl.append(Claim("content", c13_content, pre=[lambda ci, vi: 0 <= ci < len(CONTENT) and 0 <= vi < len(V)], timeout=1200, bounds="6 content forms (string, Note, list of strings, list of Notes, NoteContainer, None) x %d values" % len(V)))
     cl.append(Claim("setitem", c13_setitem, pre=[lambda ci, idx: 0 <= ci < len(CONTENT) - 1 and 0 <= idx < 3], timeout=600, bounds="__setitem__ with 5 content forms at each of 3 indices; place_notes_at"))
     cl.append(Claim("place_at", c13_place_at, pre=[lambda vi, k, off: 0 <= vi < 5 and 0 <= k < 4 and 0 <= off < 3], timeout=600, bounds="place_notes_at on four entries of 5 short values (128th, its triplet, septuplet 64th, 64th, quarter) at each start beat, near a start beat, and at the end"))
+    for u1 in range(5):
+        cl.append(Claim("set_meter_seq[u1=%d]" % [1, 2, 4, 8, 16][u1], c13_set_meter_seq, params={"u1": u1}, group="c13_set_meter_seq", pre=[lambda c1, u1, c2, u2: u1 == P["u1"] and 1 <= c1 <= (6 if q else 12) and 1 <= c2 <= (6 if q else 12) and 0 <= u2 < 5], timeout=900 if q else 3000, bounds="every ordered pair of meters count 1..%d / unit in {1,2,4,8,16} (first unit %d): set_meter twice, then '+'" % (6 if q else 12, [1, 2, 4, 8, 16][u1])))
     cl.append(Claim("set_meter", c13_set_meter, pre=[lambda ui: 0 <= ui < 17], timeout=600, bounds="count: every integer (symbolic, unbounded); 17 beat units (enumerated)"))
     nmet = len(METERS) - 1
     if q:
